@@ -39,8 +39,17 @@ def gen_cases(rng, tier):
     nlib = 20 if tier == 'quick' else 250
     for _ in range(nlib):
         c = libgen.gen_repcode(rng, max_d=3 if tier == 'quick' else 5, max_cycles=5 if tier == 'quick' else 8)
+        if c['desc']['src'] == 'layout' and rng.random() < 0.6:
+            # an explicit qubit -> channel map: distinct hardware channel numbers in arbitrary order (not ascending along the chain)
+            n = len(c['desc']['involved'])
+            c['desc']['index_map'] = rng.sample(range(0, 17), n)
         c['obs'] = ['structure', 'unrolled', 'flat']
         cases.append(c)
+    # a description with hardware channel numbers that do not ascend along the chain (two ancillas: Z3 on 12, Z1 on 10)
+    for cyc in ((0, 1, 3) if tier == 'quick' else (0, 1, 2, 3, 5)):
+        cases.append({'k': 'repcode', 'desc': {'src': 'layout', 'name': 'Repetition9Code', 'involved': ['D7', 'Z3', 'D4', 'Z1', 'D5'], 'refocus': True,
+                                              'index_map': [6, 12, 3, 10, 4]},
+                      'init': [0, 1, 0], 'cycles': cyc, 'env': libgen.gen_env(rng), 'obs': ['structure', 'unrolled', 'flat']})
     # the other constructors the statement names: multi-round experiments and the simplified repetition-code constructor
     for kind, n in (('multi', 6 if tier == 'quick' else 60), ('simplified', 6 if tier == 'quick' else 60)):
         for _ in range(n):
